@@ -113,11 +113,12 @@ class SieveProgram(Program):
         return None
 
 
-def check_limit(P, N, do_factorize=True, fact_lo=1):
+def check_limit(P, N, do_factorize=True, fact_lo=1, tables=True):
     """-> dict(records=[...]) for one limit N"""
     out = []
     t0 = time.time()
     m0 = Machine(P)
+    m0.max_steps = max(m0.max_steps, 200 * (N + 10))
     sieve = m0.run(P.one('new'), [I(N, 'usize')], {})
     build_steps = m0.steps
     sref = Ref([sieve], 0)
@@ -134,7 +135,7 @@ def check_limit(P, N, do_factorize=True, fact_lo=1):
         return s.model() if r == z3.sat else None
 
     # ---- 1/2: smallest prime factor and primality, n and d symbolic
-    if N >= 2:
+    if N >= 2 and tables:
         n = z3.BitVec('n', 32)
         dom = [n >= 2, n <= N]
 
